@@ -781,6 +781,11 @@ def write_ev(prop, tier, seed, results, samples, xcheck, build_s, wall, violatio
                        'VM effects per instruction as extracted from vm/mod.rs on this run; operand arities from the hand-written table in bytecode/encoder.py',
                        'programs outside the generated family are not covered',
                        'native replay contexts: a fixed family of 14 contexts over the variables the generator uses']
+    if 'M' in extra_ev:
+        cov['mir_restore'] = extra_ev['M'].get('coverage', {})
+        assumptions = assumptions + ['engine M: the MIR rustc (nightly) emits for perform_super / perform_include / call_block from the current source; panics/unwind edges are not followed; '
+                                     'the effect table names the acquire/release functions of five resources (frame, block cursor, recursion depth, macro closure, output capture); '
+                                     'an Output capture need not be returned on an error exit (the Output does not outlive the failing call)']
     if 'Bs' in extra_ev:
         # C12: the VM use-site audit (bytecode/sites.py) rides along with the Kani kernels
         cov['vm_sites'] = extra_ev['Bs'].get('coverage', {})
